@@ -232,11 +232,12 @@ Section SEM.
   (* defect #16 / the UInt8 bitmask: where the plan is NOT the reference meaning.
      (1) a matcher that accepts the empty string (a != "x", a !~ "x", a =~ ".*", a = "") selects, by
          definition, series that lack the label; the label index has no row for them;
-     (2) bit i >= 8 of the matcher bitmask is lost. *)
+     (2) the matcher bitmask is a UInt64 since fix 052673d (it was the UInt8 of the condition: nine matchers
+         selected nothing); Go prints its comparison constant (1 << n) - 1 from an int, so n stays below 64. *)
   Definition absent_guard (q : strsel) (d : database) : Prop :=
     forall m, List.In m (sel_matchers q) -> matcher_val_ok m "" = true ->
       forall s, List.In s (d_series d) -> List.In (m_name m) (map fst (ts_labels s)).
-  Definition width_guard (q : strsel) : bool := Nat.leb (List.length (sel_matchers q)) 8.
+  Definition width_guard (q : strsel) : bool := Nat.leb (List.length (sel_matchers q)) 63.
 End SEM.
 
 (* Plan(script, true).Process(ctx): the SELECT the reader sends *)
@@ -256,7 +257,7 @@ Definition log_correct (re_match : string -> string -> bool) (parse_float : stri
     /\ map row_out rows = map Some outs
     /\ logql_sem re_match parse_float q c d outs.
 
-(* C07 at full strength over the modelled fragment (false: see absent_guard / width_guard) *)
+(* C07 at full strength over the modelled fragment (false: see absent_guard) *)
 Definition log_sound_complete_stmt : Prop :=
   forall re_match parse_float (tie : forall A : Type, list A -> list A),
     (forall A (l : list A), Permutation (tie A l) l) ->
